@@ -168,7 +168,8 @@ class UnitStore(object):
         # To test if this is a dimensionless unit, parse the string as a Quantity and check if it's dimensionless
         quantity = self._registry.parse_expression(expression)
         if quantity.units == self._registry.dimensionless:
-            definition = UnitDefinition(qname, '', (), ScaleConverter(quantity.to(self._registry.dimensionless).magnitude))
+            factor = quantity.to(self._registry.dimensionless).magnitude
+            definition = UnitDefinition(qname, '', (), ScaleConverter(factor))
         else:
             # Define from the parsed quantity: pint cannot resolve 'dimensionless' inside a definition string
             definition = UnitDefinition(qname, '', (), ScaleConverter(quantity.magnitude), quantity._units)
